@@ -213,19 +213,19 @@ proof {
     let r = FRec { fresh: fresh, src: src, at: at0, mid: mid, end: w.wv(), cie_off: cie_offset };
     rs = rs0.push(r);
     if fresh { cpos = cpos0.update(c, Some(i)); }
-    assert forall|k: int| 0 <= k < i + 1 implies #[trigger] self.step_ok(eh_frame, w0, rs, k) by {
+    assert forall|k: int| 0 <= k < i + 1 implies #[trigger] self.step_ok(eh_frame, w0, rs, k) by { // [C14:table-each-fde-once]
         if k < i { assert(self.step_ok(eh_frame, w0, rs0, k)); }
     }
-    assert forall|k: int| 0 <= k < i + 1 implies #[trigger] self.step_cie(rs, k) by {
+    assert forall|k: int| 0 <= k < i + 1 implies #[trigger] self.step_cie(rs, k) by { // [C14:table-cie-before-fde]
         if k < i { assert(self.step_cie(rs0, k)); }
     }
-    assert forall|k: int| 0 <= k < i + 1 implies #[trigger] self.step_own(rs, k) by {
+    assert forall|k: int| 0 <= k < i + 1 implies #[trigger] self.step_own(rs, k) by { // [C14:table-fde-own-cie]
         if k < i { assert(self.step_own(rs0, k)); assert(self.step_cie(rs0, k)); }
     }
     assert forall|k: int| 0 <= k < i + 1 implies (#[trigger] rs[k]).at.len <= w.wv().len by {
         if k < i { assert(rs0[k].at.len <= at0.len); }
     }
-    assert forall|d: int| 0 <= d < self.tcies().len() implies #[trigger] self.offs_ok(rs, cpos, cie_offsets@, d, i + 1) by {
+    assert forall|d: int| 0 <= d < self.tcies().len() implies #[trigger] self.offs_ok(rs, cpos, cie_offsets@, d, i + 1) by { // [C14:table-fde-own-cie][C14:table-cie-before-fde]
         assert(self.offs_ok(rs0, cpos0, offs0, d, i));
         if d != c { assert(cie_offsets@[d] == offs0[d]); assert(cpos[d] == cpos0[d]); }
     }
